@@ -20,13 +20,13 @@ JOBS = [
          functions=['carquet_snappy_compress_bound'], wip=False, **SC9),
     dict(name='c09_snappy_compress', props=['C09', 'C10'], entry='h_c09_compress', enforce='carquet_snappy_compress',
          replace=['carquet_snappy_compress_bound', 'snappy_write_varint', 'snappy_emit_literal', 'snappy_emit_copy'],
-         min_loop_obligations=2, est_s=900, timeout=1500, tier='thorough', wip=True,
+         min_loop_obligations=2, est_s=900, timeout=1500, tier='thorough', backend='cadical', wip=True,
          replayer=dict(kind='fuzz', harness='replay/fz/snappy_compress.c', sources=['src/compression/snappy.c'], max_len=64, secs=20),
          defines=['CQV_OWN_MEM=1'], extra_sources=[], trusted=[OWNMEM], **SC9),
     # same contract plus the obligation that the length preamble can represent src_size
     dict(name='c09_snappy_compress_len32', props=['C09', 'C10'], entry='h_c09_compress', enforce='carquet_snappy_compress',
          replace=['carquet_snappy_compress_bound', 'snappy_write_varint', 'snappy_emit_literal', 'snappy_emit_copy'],
-         min_loop_obligations=2, est_s=900, timeout=2400, tier='thorough', wip=True,
+         min_loop_obligations=2, est_s=900, timeout=2400, tier='thorough', backend='cadical', wip=True,
          note='FINDING: src_size >= 2^32 is accepted, (uint32_t)src_size is written as the preamble, CARQUET_OK is returned; '
               'the stream does not round-trip (native demo /tmp/snappyc/snappy_4g.c)',
          extra_sources=[], trusted=[OWNMEM], **dict(SC9, defines=['CQV_LEN32=1', 'CQV_OWN_MEM=1'])),
